@@ -145,6 +145,9 @@ func runConcurrentHistory(env *core.Env, r *rand.Rand, idx int, fixedOnly bool) 
 					switch kind {
 					case "read":
 						sql = fmt.Sprintf("SELECT id, k, v FROM t WHERE id = %d;", row)
+						if lr.Intn(4) == 0 {
+							sql = fmt.Sprintf("SELECT id, k, v FROM t WHERE id = %d OR id < 0;", row) // sequential-scan path
+						}
 					case "blind":
 						ev.Val = tok
 						sql = fmt.Sprintf("UPDATE t SET v = '%s' WHERE id = %d;", tok, row)
@@ -153,7 +156,11 @@ func runConcurrentHistory(env *core.Env, r *rand.Rand, idx int, fixedOnly bool) 
 							// an append is always preceded by a read of the row in the same transaction
 							rev := &cEvent{Worker: w, Txn: n, Stmt: s, Kind: "read", Row: row}
 							rev.Inv = clock.Add(1)
-							rr := db.Exec(txn, fmt.Sprintf("SELECT id, k, v FROM t WHERE id = %d;", row))
+							rsql := fmt.Sprintf("SELECT id, k, v FROM t WHERE id = %d;", row)
+							if lr.Intn(4) == 0 {
+								rsql = fmt.Sprintf("SELECT id, k, v FROM t WHERE id = %d OR id < 0;", row)
+							}
+							rr := db.Exec(txn, rsql)
 							rev.Resp = clock.Add(1)
 							t.Events = append(t.Events, rev)
 							if rr.Aborted {
